@@ -1,0 +1,177 @@
+//! Verification hooks for the router, compiled only with the `verif-hooks` feature:
+//! single-threaded, non-blocking stepping of the real scheduling loop and a read-only
+//! snapshot of the bookkeeping the properties are phrased over. Nothing here changes
+//! router behaviour.
+
+use flume::Sender;
+
+use super::Router;
+use crate::router::scheduler::Status;
+use crate::router::Event;
+use crate::ConnectionId;
+
+/// State of one live connection
+#[derive(Debug, Clone)]
+pub struct VerifConnection {
+    pub id: ConnectionId,
+    pub client_id: String,
+    pub clean: bool,
+    /// "ready", "caughtup", "inflightfull" or "busy"
+    pub status: &'static str,
+    /// Filters of the data requests currently held by the tracker
+    pub tracked: Vec<String>,
+    /// Packet ids of QoS>0 forwards awaiting acknowledgement, oldest first
+    pub inflight: Vec<u16>,
+    pub unacked_pubrels: Vec<u16>,
+    pub subscriptions: Vec<String>,
+}
+
+/// State of one shared subscription group
+#[derive(Debug, Clone)]
+pub struct VerifGroup {
+    pub name: String,
+    pub members: Vec<String>,
+    pub current: usize,
+    pub cursor: (u64, u64),
+}
+
+#[derive(Debug, Clone, Default)]
+pub struct VerifSnapshot {
+    pub connections: Vec<VerifConnection>,
+    pub connection_keys: Vec<ConnectionId>,
+    pub ibuf_keys: Vec<ConnectionId>,
+    pub obuf_keys: Vec<ConnectionId>,
+    pub acklog_keys: Vec<ConnectionId>,
+    pub tracker_keys: Vec<ConnectionId>,
+    pub connection_map: Vec<(String, ConnectionId)>,
+    pub readyqueue: Vec<ConnectionId>,
+    /// (client id, has session state)
+    pub graveyard: Vec<(String, bool)>,
+    pub last_wills: Vec<String>,
+    pub groups: Vec<VerifGroup>,
+    /// (filter, connection ids parked on it)
+    pub waiters: Vec<(String, Vec<ConnectionId>)>,
+    pub pending_events: usize,
+}
+
+impl Router {
+    /// Sender half of the router channel (what `spawn` returns)
+    pub fn verif_link(&self) -> Sender<(ConnectionId, Event)> {
+        self.link()
+    }
+
+    /// Runs exactly one iteration of the production loop body (`run_inner`). Returns
+    /// `false`, without side effects beyond those of `consume()`, exactly where the
+    /// production router would block waiting for the next event.
+    pub fn verif_turn(&mut self) -> bool {
+        self.verif_nonblocking = true;
+        self.run_inner().is_ok()
+    }
+
+    /// Number of events queued in the router channel
+    pub fn verif_pending_events(&self) -> usize {
+        self.router_rx.len()
+    }
+
+    pub fn verif_snapshot(&self) -> VerifSnapshot {
+        let mut connections = Vec::new();
+        for (id, connection) in self.connections.iter() {
+            let tracker = self.scheduler.trackers.get(id);
+            let status = match tracker.map(|t| t.status) {
+                Some(Status::Ready) => "ready",
+                Some(Status::Paused(crate::router::scheduler::PauseReason::Caughtup)) => "caughtup",
+                Some(Status::Paused(crate::router::scheduler::PauseReason::InflightFull)) => {
+                    "inflightfull"
+                }
+                Some(Status::Paused(crate::router::scheduler::PauseReason::Busy)) => "busy",
+                None => "missing",
+            };
+            let tracked = tracker
+                .map(|t| t.data_requests.iter().map(|r| r.filter.clone()).collect())
+                .unwrap_or_default();
+            let (inflight, unacked_pubrels) = self
+                .obufs
+                .get(id)
+                .map(|o| {
+                    (
+                        o.verif_inflight(),
+                        o.unacked_pubrels.iter().copied().collect(),
+                    )
+                })
+                .unwrap_or_default();
+            let mut subscriptions: Vec<String> = connection.subscriptions.iter().cloned().collect();
+            subscriptions.sort();
+            connections.push(VerifConnection {
+                id,
+                client_id: connection.client_id.clone(),
+                clean: connection.clean,
+                status,
+                tracked,
+                inflight,
+                unacked_pubrels,
+                subscriptions,
+            });
+        }
+
+        let mut connection_map: Vec<_> = self
+            .connection_map
+            .iter()
+            .map(|(k, v)| (k.clone(), *v))
+            .collect();
+        connection_map.sort();
+
+        let mut graveyard = self.graveyard.verif_keys();
+        graveyard.sort();
+
+        let mut last_wills: Vec<_> = self.last_wills.keys().cloned().collect();
+        last_wills.sort();
+
+        let mut groups: Vec<_> = self
+            .shared_subscriptions
+            .iter()
+            .map(|(name, group)| {
+                let (members, current) = group.verif_members();
+                VerifGroup {
+                    name: name.clone(),
+                    members,
+                    current,
+                    cursor: group.cursor,
+                }
+            })
+            .collect();
+        groups.sort_by(|a, b| a.name.cmp(&b.name));
+
+        let mut waiters: Vec<_> = self
+            .subscription_map
+            .keys()
+            .map(|filter| {
+                let stripped = super::extract_group(filter)
+                    .map(|(_, path)| path)
+                    .unwrap_or_else(|| filter.clone());
+                let ids = self
+                    .datalog
+                    .waiters(&stripped)
+                    .map(|w| w.waiters().iter().map(|(id, _)| *id).collect())
+                    .unwrap_or_default();
+                (filter.clone(), ids)
+            })
+            .collect();
+        waiters.sort();
+
+        VerifSnapshot {
+            connections,
+            connection_keys: self.connections.iter().map(|(k, _)| k).collect(),
+            ibuf_keys: self.ibufs.iter().map(|(k, _)| k).collect(),
+            obuf_keys: self.obufs.iter().map(|(k, _)| k).collect(),
+            acklog_keys: self.ackslog.iter().map(|(k, _)| k).collect(),
+            tracker_keys: self.scheduler.trackers.iter().map(|(k, _)| k).collect(),
+            connection_map,
+            readyqueue: self.scheduler.readyqueue.iter().copied().collect(),
+            graveyard,
+            last_wills,
+            groups,
+            waiters,
+            pending_events: self.router_rx.len(),
+        }
+    }
+}
